@@ -13,9 +13,10 @@ EXTENDS Cache, Json
 VARIABLES hist, ip
 mcvars == <<W, obs, hist, ip>>
 
-MCInit == /\ \E mode \in Modes : \E sut1, regF, regC \in BOOLEAN :
-               /\ W = InitWorld(mode, sut1, regF, regC)
-               /\ ip = [sut1 |-> sut1, regF |-> regF, regC |-> regC, ns |-> IF mode = "T" THEN 0 ELSE 1]
+MCInit == /\ \E mode \in Modes : \E pr \in InitParams(mode) :
+               /\ W = InitWorld(mode, pr[1], pr[2], pr[3])
+               /\ ip = [sut1 |-> pr[1], regF |-> pr[2], regC |-> pr[3], mode |-> mode,
+                         ns |-> IF mode \in {"T"} \cup FocusC THEN 0 ELSE 1]
           /\ obs = NoV
           /\ hist = <<>>
 
